@@ -204,14 +204,14 @@ Theorem pcr_displacement_reaches_target ss4 this s s' tgt_addr start :
   is_relative_op (s_operand s) = false ->
   (forall l op r m, operand_left (s_operand s) <> Some (LVal (VExpr l op r m true))) ->
   (match operand_value (s_operand s) with VLR _ _ _ => True | _ => False end) ->
-  cp_needs (s_pkg s) = true ->
+  cp_needs (s_pkg s) = true -> addr_offset (s_pkg s) = false ->
   addr_of ss4 (v_int (cp_add (s_pkg s))) = Ok tgt_addr -> addr_of ss4 this = Ok start ->
   fix_stmt ss4 this s = Ok s' ->
   exists n, cp_add (s_pkg s') = VNum n /\ (-32768 <= num_val n <= 32767)%Z /\
             ((Z.of_N start + Z.of_N (cp_size (s_pkg s)) + num_val n) mod 65536 = Z.of_N tgt_addr mod 65536)%Z.
 Proof.
-  intros Hrel Hleft Hov Hneeds Htgt Hstart Hfix. unfold fix_stmt in Hfix. rewrite Hrel in Hfix.
-  destruct (operand_value (s_operand s)) eqn:Eov; try contradiction. cbn [bind] in Hfix. rewrite Hneeds in Hfix.
+  intros Hrel Hleft Hov Hneeds Hao Htgt Hstart Hfix. unfold fix_stmt in Hfix. rewrite Hrel in Hfix.
+  destruct (operand_value (s_operand s)) eqn:Eov; try contradiction. cbn [bind] in Hfix. rewrite Hao, Hneeds in Hfix.
   assert (Hl : (match operand_left (s_operand s) with
                 | Some (LVal (VExpr l0 op r0 _ true)) =>
                     do v <- calc_offset ss4 l0 op r0;
